@@ -37,8 +37,9 @@ type c19Scenario struct {
 	Jobs  int    `json:"jobs"`  // jobs per submitter
 	Dur   int    `json:"dur"`   // 0 none, 1 Gosched, 2 50us, 3 2ms, 4 mixed
 	Procs int    `json:"procs"` // GOMAXPROCS of the child
-	Mode  string `json:"mode"`  // drain | race | saturated | idle | tcp-drain | tcp-saturated | tcp-shutdown | udp-drain | udp-saturated (pool inside a real transport.TarsServer)
+	Mode  string `json:"mode"`  // drain | race | saturated | idle | tcp-drain | tcp-saturated | tcp-shutdown | tcp-late-accept | udp-drain | udp-saturated (pool inside a real transport.TarsServer)
 	Seed  int64  `json:"seed"`
+	Hold  int    `json:"hold_ms,omitempty"` // saturated: how long the started jobs keep running after Release was called (default 25 ms)
 }
 
 // c19Case is a scenario plus what was observed (its own replay).
@@ -268,6 +269,9 @@ func c19RunScenario(sc c19Scenario) c19ChildOut {
 			// Release is called now and must not return before the gate opens
 			phase.Store("submit")
 			n := sc.W + 1 + sc.Q
+			if sc.Hold > 0 { // exactly the workers: the dispatcher is idle in its select and takes the stop request at once
+				n = sc.W
+			}
 			sc.Jobs = n
 			subWG.Add(1)
 			go submitter(0, n)
@@ -293,11 +297,16 @@ func c19RunScenario(sc c19Scenario) c19ChildOut {
 			}
 			time.Sleep(15 * time.Millisecond) // room for a surplus worker to show up
 			phase.Store("release")
+			hold := 25 * time.Millisecond
+			if sc.Hold > 0 { // long jobs: Release has to wait for them however long they run (no internal grace period)
+				hold = time.Duration(sc.Hold) * time.Millisecond
+			}
+			tRel := time.Now()
 			rel := release()
 			select {
 			case <-rel: // already reported by release() through the running counter; make sure it is
-				fail("C19/release-returned-while-running", fmt.Sprintf("Release returned while the pool was saturated with blocked jobs (W=%d Q=%d)", sc.W, sc.Q))
-			case <-time.After(25 * time.Millisecond):
+				fail("C19/release-returned-while-running", fmt.Sprintf("Release returned while the pool was saturated with blocked jobs, %v into a hold of %v (W=%d Q=%d)", time.Since(tRel).Round(time.Millisecond), hold, sc.W, sc.Q))
+			case <-time.After(hold):
 			}
 			close(gate)
 			if !waitCh(rel, "release-return-after-jobs-finished") {
@@ -598,6 +607,22 @@ func c19Gen(tier string, rng *rand.Rand) []c19Case {
 			for _, m := range []string{"drain", "race"} {
 				cs = append(cs, c19Case{Sc: c19Scenario{W: b[0], Q: b[1], Subs: b[2], Jobs: b[3], Dur: []int{0, 1, 4}[rng.Intn(3)], Procs: procs[rng.Intn(3)], Mode: m, Seed: rng.Int63()}})
 			}
+		}
+	}
+	// long jobs: Release is called while jobs that run for seconds occupy the workers
+	cs = append(cs, c19Case{Sc: c19Scenario{W: 2, Q: 1, Subs: 1, Jobs: 4, Dur: 0, Procs: procs[rng.Intn(3)], Mode: "saturated", Seed: rng.Int63(), Hold: 2600}})
+	if tier == "thorough" {
+		for _, h := range []int{4000, 6500, 11000} {
+			cs = append(cs, c19Case{Sc: c19Scenario{W: 1 + rng.Intn(3), Q: rng.Intn(3), Subs: 1, Dur: 0, Procs: procs[rng.Intn(3)], Mode: "saturated", Seed: rng.Int63(), Hold: h}})
+		}
+	}
+	// a connection accepted at the very moment of shutdown (pooled TCP server), one P and several
+	for _, p := range []int{1, 1, 2} {
+		cs = append(cs, c19Case{Sc: c19Scenario{W: 1, Q: 1 + rng.Intn(4), Subs: 1, Jobs: 1 + rng.Intn(3), Dur: rng.Intn(3), Procs: p, Mode: "tcp-late-accept", Seed: rng.Int63()}})
+	}
+	if tier == "thorough" {
+		for i := 0; i < 24; i++ {
+			cs = append(cs, c19Case{Sc: c19Scenario{W: 1 + rng.Intn(2), Q: rng.Intn(5), Subs: 1, Jobs: 1 + rng.Intn(3), Dur: rng.Intn(3), Procs: []int{1, 1, 2, 16}[i%4], Mode: "tcp-late-accept", Seed: rng.Int63()}})
 		}
 	}
 	// graceful shutdown of a loaded TCP server: requests of other connections wait in the pool while Shutdown is called
